@@ -131,9 +131,27 @@ func c28WidenExceptions(res *core.LockResult, exceptions []lockException) []lock
 	return out
 }
 
+// c28FieldFloors is the vacuity guard of a lockset clause: the analysis has seen at least one access to
+// every guarded field of its table (a field that is never reached would make the clause pass on nothing).
+// How many functions touch a field is not part of the property: the obligation is on every access.
+func c28FieldFloors(c *core.Ctx, res *core.LockResult, spec core.LockSpec) {
+	seen := map[string]int{}
+	for _, a := range res.Accesses {
+		seen[a.Field]++
+	}
+	var fields []string
+	for f := range spec.Guarded {
+		fields = append(fields, f)
+	}
+	sort.Strings(fields)
+	for _, f := range fields {
+		c.ExpectAtLeast("accesses to "+short(f), seen[f], 1)
+	}
+}
+
 func init() {
 	register("C28", "other", "T1 LockSet, T12 Purity, atomicity (single critical section)",
-		"Decides the lock discipline that race freedom and linearizability of the five thread-safe components depend on: every access to a guarded field holds its mutex (write mode for writes and for calls classified mutating by the purity analysis), every exit releases what it acquired, helper functions are checked with the meet of the lock states at all their call sites, and every exported operation touches guarded state inside one critical section (so lock order is a linearization order); an operation that does run several critical sections of its own mutex (inline or through methods of the same receiver that lock themselves) must neither overwrite blindly what an earlier section read (C28.rmw) nor see in separate sections fields that a writer updates together (C28.views, view consistency). Lock exceptions granted to a function extend to unexported helpers called only from it. Sequential correctness of each operation is not decided here (C22/C29/C30).",
+		"Decides the lock discipline that race freedom and linearizability of the five thread-safe components depend on: every access to a guarded field holds its mutex (write mode for writes and for calls classified mutating by the purity analysis), every exit releases what it acquired, helper functions are checked with the meet of the lock states at all their call sites, and every exported operation touches guarded state inside one critical section (so lock order is a linearization order); an operation that does run several critical sections of its own mutex (inline or through methods of the same receiver that lock themselves) must neither overwrite blindly what an earlier section read (C28.rmw) nor see in separate sections fields that a writer updates together (C28.views, view consistency); an operation on a container that accessors read without the component's mutex must not insert a key and remove the same key again before it returns, because those accessors see the entry in between (C28.transient). Lock exceptions granted to a function extend to unexported helpers called only from it. Sequential correctness of each operation is not decided here (C22/C29/C30).",
 		[]string{"lock identity is by mutex field, not by instance (RacerD-style)", "unexported helpers have no callers outside their package; exported methods are assumed to be entered with no lock held", "constructors (composite literals) publish the object only after initialisation"},
 		runC28)
 }
@@ -145,8 +163,8 @@ func runC28(c *core.Ctx) {
 			c.Fld(f)
 		}
 		res := core.RunLockset(p, flushableLockSpec())
-		n := reportLockset(c, res, c28WidenExceptions(res, c28Exceptions), nil)
-		c.ExpectAtLeast("flushable/pool (function,field) access groups", n, 35)
+		reportLockset(c, res, c28WidenExceptions(res, c28Exceptions), nil)
+		c28FieldFloors(c, res, flushableLockSpec())
 		c.Extra["flushable_acquires"] = res.Acquires
 	})
 	c.Clause("C28.semaphore", func() {
@@ -154,15 +172,15 @@ func runC28(c *core.Ctx) {
 			c.Fld(f)
 		}
 		res := core.RunLockset(p, semaphoreLockSpec())
-		n := reportLockset(c, res, nil, nil)
-		c.ExpectAtLeast("semaphore access groups", n, 8)
+		reportLockset(c, res, nil, nil)
+		c28FieldFloors(c, res, semaphoreLockSpec())
 	})
 	c.Clause("C28.wlru", func() {
 		spec, pur := wlruLockSpec(p)
 		c.Fld("utils/wlru.Cache.lru")
 		res := core.RunLockset(p, spec)
-		n := reportLockset(c, res, nil, nil)
-		c.ExpectAtLeast("wlru methods touching lru", n, 15)
+		reportLockset(c, res, nil, nil)
+		c28FieldFloors(c, res, spec)
 		// purity table itself is evidence
 		var ro, mu []string
 		for f, reason := range pur {
@@ -185,8 +203,8 @@ func runC28(c *core.Ctx) {
 			c.Fld(f)
 		}
 		res := core.RunLockset(p, spec)
-		n := reportLockset(c, res, c28WidenExceptions(res, c28Exceptions), nil)
-		c.ExpectAtLeast("ordering-buffer access groups", n, 8)
+		reportLockset(c, res, c28WidenExceptions(res, c28Exceptions), nil)
+		c28FieldFloors(c, res, spec)
 	})
 	c.Clause("C28.atomic", func() {
 		// every exported method of the five components acquires each of its mutexes at most once
@@ -207,7 +225,7 @@ func runC28(c *core.Ctx) {
 			{"gossip/dagordering.EventsBuffer", bs},
 		}
 		cache := map[string]*core.LockResult{}
-		n := 0
+		perPkg := map[string]int{}
 		for _, cm := range comps {
 			key := strings.Join(cm.spec.Pkgs, ",")
 			res := cache[key]
@@ -219,7 +237,7 @@ func runC28(c *core.Ctx) {
 				if !f.Obj.Exported() {
 					continue
 				}
-				n++
+				perPkg[key]++
 				worst, wm := 0, ""
 				for m, k := range res.Sections[f] {
 					if k > worst {
@@ -233,7 +251,15 @@ func runC28(c *core.Ctx) {
 				}
 			}
 		}
-		c.ExpectAtLeast("exported methods of the five components", n, 45)
+		// vacuity: every component contributes at least one exported operation (how many it has is its API,
+		// not part of the property)
+		for _, cm := range comps {
+			key := strings.Join(cm.spec.Pkgs, ",")
+			if perPkg[key] >= 0 {
+				c.ExpectAtLeast("exported operations in "+key, perPkg[key], 1)
+				perPkg[key] = -1
+			}
+		}
 	})
 }
 
